@@ -33,6 +33,7 @@ type PropSpec struct {
 	Notes     string     `json:"notes,omitempty"`
 	Assumptions []string `json:"assumptions,omitempty"`
 	NotDecided  []string `json:"not_decided,omitempty"`
+	AssumeExclude []string `json:"assume_exclude,omitempty"` // callee clauses ("<callee>/<label>") not assumed in this check
 }
 
 func main() {
@@ -175,6 +176,10 @@ func runCheck(o *checkOpts) (int, error) {
 		}
 		e := NewEnc(L)
 		e.tier = o.tier
+		e.skipAssume = map[string]bool{}
+		for _, x := range prop.AssumeExclude {
+			e.skipAssume[x] = true
+		}
 		func() {
 			defer func() {
 				if r := recover(); r != nil {
@@ -213,6 +218,39 @@ func runCheck(o *checkOpts) (int, error) {
 		}
 	}
 
+	for _, ln := range prop.Lemmas {
+		if o.only != "" && !strings.Contains(ln, o.only) {
+			continue
+		}
+		var lm *Lemma
+		for _, c := range L.Contracts.Lemmas {
+			if c.Name == ln {
+				lm = c
+			}
+		}
+		if lm == nil {
+			encErrs = append(encErrs, "contract-unbound: lemma "+ln+" not found")
+			continue
+		}
+		e := NewEnc(L)
+		e.tier = o.tier
+		func() {
+			defer func() {
+				if r := recover(); r != nil {
+					encErrs = append(encErrs, fmt.Sprintf("encoder failure in lemma %s: %v", ln, r))
+					if o.verbose {
+						panic(r)
+					}
+				}
+			}()
+			e.runLemma(lm)
+		}()
+		encs = append(encs, e)
+		encErrs = append(encErrs, e.errs...)
+		for _, ob := range e.obls {
+			all = append(all, oblResult{O: ob, E: e, Fn: "lemma:" + ln})
+		}
+	}
 	for _, which := range prop.Rel {
 		if o.only != "" && !strings.Contains(which, o.only) {
 			continue
